@@ -188,7 +188,10 @@ func (w *world) decode(g func(string) string) *input {
 		in.formIDs, in.dupIDs = []string{other, self}, true
 	}
 	// the client a VALID credential is presented for: the statement's "authenticated client"
-	good := func(id, secret string) bool { cl := registered[id]; return cl != nil && cl.Secret != "" && cl.Secret == secret }
+	good := func(id, secret string) bool {
+		cl := registered[id]
+		return cl != nil && cl.Secret != "" && cl.Secret == secret
+	}
 	switch {
 	case in.spec.assertion == 1:
 		in.clientID = "jwt"
@@ -763,7 +766,7 @@ func TestCheck(t *testing.T) {
 			{"chan", "auth", "formcid", "router"},
 			{"requested", "router"}, // dev(kAll) over ALL other dimensions: every pair (thorough: triple) of deviations
 		},
-		Ks:   []int{k, k, k, k, k, kAll},
+		Ks:   []int{k, k, k, k, 1, kAll},
 		Skip: func(v engine.Vec) bool { return redundant(func(n string) string { return space.Get(v, n) }) },
 		NewWorker: func(int) func(engine.Vec) engine.Result {
 			wk := newWorker(t, w)
